@@ -284,7 +284,7 @@ def gen_script(rnd: random.Random) -> dict:
         # a write (after a fetch of the same zone, so that the zone holds a labelled schedule), faults in the middle of it
         z = rnd.choice(ZONES)
         calls = [{"zone": z, "at": 0.0, "force_io": True, "timeout": 15},
-                 {"zone": z, "op": "set", "at": 4.0, "force_io": True, "timeout": rnd.choice((60.0, 60.0, 0.2, 1.0, 2.6, 6.0)),
+                 {"zone": z, "op": "set", "at": 4.0, "force_io": True, "timeout": rnd.choice((60.0, 60.0, 0.2, 1.0, 2.6, 6.0, round(rnd.uniform(0.0, 1.2), 3), round(rnd.uniform(0.0, 1.2), 3))),
                   "new_seed": rnd.randrange(10**6), "new_size": rnd.choice((2, 4, 6))}]
         nfr = {2: 3, 4: 5, 6: 8}.get(sizes[z], 5)
         lose = {}
@@ -358,6 +358,9 @@ def score(chk: Check, script, o, rep) -> None:
     fs = o.get("followup_same")
     if fs and fs[0] == "ok" and fs[1] != o["history"][o["followup_same_zone"]][-1][2]:
         chk.violation("c18.forced_refetch_stale", f"get_schedule(force_io=True) on zone {o['followup_same_zone']} after the transfers does not return the controller's present schedule", rep)
+    if fs and fs[0] == "err":
+        chk.violation(f"c18.followup_same_failed:{fs[1]}", f"with nothing lost any more, get_schedule(force_io=True) on zone {o['followup_same_zone']} (the zone of the "
+                      f"earlier transfers) ended with {fs[1]}: an earlier transfer left something behind", rep)
     if o["lock_after"] is not None:
         chk.violation("c18.lock_left", f"zone_lock_idx is {o['lock_after']!r} after every transfer has ended", rep)
     fk = o["followup"]
